@@ -102,7 +102,40 @@ func Run(c *fw.Ctx) {
 		i /= len(bufSizes)
 		T := poolSizes[i%len(poolSizes)]
 		i /= len(poolSizes)
-		runCase(cs, entries[i], T, buf, part, reps)
+		runCase(cs, entries[i], buildOpt{}, T, buf, part, reps)
+	})
+	smallReps := (reps + 1) / 2
+	errReps := smallReps
+	if errReps < 3 {
+		errReps = 3 // a lost error is charged only when it is lost in every repetition (see runCase)
+	}
+	// error path: an observation on which the density evaluation fails; the
+	// outcome (error or nil, outputs) must not depend on the pool
+	var failing, withOpts []entryDef
+	for _, e := range entries {
+		if e.CanFail {
+			failing = append(failing, e)
+		}
+		if e.NOpt > 0 {
+			withOpts = append(withOpts, e)
+		}
+	}
+	perEntry := len(poolSizes) * len(bufSizes) * len(partitions)
+	c.Cases("errors", len(failing)*perEntry, func(cs *fw.Case) {
+		if skipInRaceMode(cs) {
+			return
+		}
+		T, buf, part, i := gridCell(cs.Index)
+		runCase(cs, failing[i], buildOpt{Bad: true}, T, buf, part, errReps)
+	})
+	// option combinations of the EM / Baum-Welch entry points (OptimizeEmissions,
+	// OptimizeWeights / OptimizeTransitions switched off) over the same grid
+	c.Cases("options", len(withOpts)*3*perEntry, func(cs *fw.Case) {
+		if skipInRaceMode(cs) {
+			return
+		}
+		T, buf, part, i := gridCell(cs.Index)
+		runCase(cs, withOpts[i/3], buildOpt{Opt: 1 + i%3}, T, buf, part, smallReps)
 	})
 	// seeded: random entry point, pool size (also sizes between the listed ones),
 	// buffer size, partition
@@ -118,8 +151,25 @@ func Run(c *fw.Ctx) {
 		}
 		buf := r.PickI([]int{1, 1, 2, 5, 100})
 		part := r.Pick(partitions)
-		runCase(cs, def, T, buf, part, reps+1)
+		var o buildOpt
+		if def.NOpt > 0 && r.Chance(0.4) {
+			o.Opt = r.Range(1, def.NOpt)
+		}
+		if def.CanFail && r.Chance(0.15) {
+			o.Bad = true
+		}
+		runCase(cs, def, o, T, buf, part, reps+1)
 	})
+}
+
+// gridCell decodes pool size, buffer size, partition and the remaining index.
+func gridCell(i int) (T, buf int, part string, rest int) {
+	part = partitions[i%len(partitions)]
+	i /= len(partitions)
+	buf = bufSizes[i%len(bufSizes)]
+	i /= len(bufSizes)
+	T = poolSizes[i%len(poolSizes)]
+	return T, buf, part, i / len(poolSizes)
 }
 
 // skipInRaceMode keeps one case in two under the race detector (the case
@@ -167,7 +217,7 @@ func hashOf(parts ...any) string {
 	return hex.EncodeToString(h.Sum(nil))[:12]
 }
 
-func runCase(cs *fw.Case, def entryDef, T, buf int, part string, reps int) {
+func runCase(cs *fw.Case, def entryDef, opt buildOpt, T, buf int, part string, reps int) {
 	if f := os.Getenv("VERIF_C17_ENTRY"); f != "" && f != def.Name {
 		cs.Skip("filtered") // debugging aid: restrict a run to one entry point
 		return
@@ -177,8 +227,15 @@ func runCase(cs *fw.Case, def entryDef, T, buf int, part string, reps int) {
 	}
 	r := cs.R
 	n := pickN(r, T, part)
-	w := def.build(r, n)
+	w := def.build(r, n, opt)
 	w.Entry = def.Name
+	if opt.Bad {
+		cs.Cover("error-path:cases")
+	}
+	if opt.Opt > 0 {
+		cs.Cover("options:" + strings.TrimPrefix(buildOpt{Opt: opt.Opt}.tag(), ","))
+		cs.Cover("set:option cells:" + fmt.Sprintf("%s|%d|%d|%d|%s", def.Name, opt.Opt, T, buf, relation(w.Items, T)))
+	}
 	rel := relation(w.Items, T)
 	poolClass := "pool=1"
 	if T > 1 {
@@ -186,6 +243,13 @@ func runCase(cs *fw.Case, def entryDef, T, buf int, part string, reps int) {
 	}
 	cfg := fmt.Sprintf("pool=%d,buf=%d,items=%d", T, buf, w.Items)
 	sigBase := fmt.Sprintf("C17|%s|%s|%s,%s", w.Entry, w.Variant, poolClass, rel)
+	if opt.Bad {
+		// error path: the relation of jobs and threads is not part of the cell
+		sigBase = fmt.Sprintf("C17|%s|%s|%s", w.Entry, w.Variant, poolClass)
+		if reps < 3 {
+			reps = 3
+		}
+	}
 	wit := map[string]any{"entry": w.Entry, "variant": w.Variant, "pool": T, "buf": buf, "items": w.Items, "workload": w.Wit}
 	cs.Cover("entry:" + w.Entry)
 	cs.Cover(fmt.Sprintf("pool:%d", T))
@@ -206,11 +270,22 @@ func runCase(cs *fw.Case, def entryDef, T, buf int, part string, reps int) {
 		cs.C.Data(map[string]any{"kind": "reference-failure", "entry": w.Entry, "panic": seq.Panic.Msg, "frame": seq.Panic.Frame, "stack": seq.Panic.Stack})
 		return
 	}
-	if seq.Err != nil {
+	if seq.Err != nil && !opt.Bad {
 		cs.Cover("reference-error:" + w.Entry)
 		cs.Skip("reference-error")
 		cs.C.Data(map[string]any{"kind": "reference-failure", "entry": w.Entry, "error": seq.Err.Error()})
 		return
+	}
+	if opt.Bad {
+		// error path: the sequential outcome (error / nil + outputs) is the reference
+		if seq.Err != nil {
+			cs.Cover("error-path:sequential run reports the error")
+			cs.Cover("error-path:reports the error:" + w.Entry)
+			wit["sequential_error"] = seq.Err.Error()
+		} else {
+			cs.Cover("error-path:sequential run returns nil")
+			cs.Cover("error-path:returns nil:" + w.Entry)
+		}
 	}
 	wit["sequential"] = hexFloats(seq.Out)
 	seqCount := countEvents(seq.Events)
@@ -220,6 +295,9 @@ func runCase(cs *fw.Case, def entryDef, T, buf int, part string, reps int) {
 		cs.Skip("after-deadlock")
 		return
 	}
+	// error path: number of repetitions in which the error of the sequential
+	// run was (not) returned by the parallel run
+	errLost, errKept, errLostPlan := 0, 0, ""
 	var first *callResult // first parallel repetition (schedule-only entries)
 	judged := false
 	multi := false
@@ -254,15 +332,44 @@ func runCase(cs *fw.Case, def entryDef, T, buf int, part string, reps int) {
 			cs.C.Data(map[string]any{"kind": "race-attrib", "pid": os.Getpid(), "reports_after": raceErrors(), "reports_new": par.Races, "entry": w.Entry, "cfg": cfg})
 			cs.Cover("race-reports-in-process")
 		}
+		if par.Panic != nil && seq.Err != nil {
+			// error path: the run can only have come this far because the error was
+			// not returned; judged with the lost errors below
+			errLost++
+			errLostPlan = pl.Mode + " (then panic: " + par.Panic.Msg + ")"
+			continue
+		}
 		if par.Panic != nil {
 			cs.Violation(sigBase+"|panic", "panic in the parallel run only ("+cfg+"): "+par.Panic.Msg+"\n"+par.Panic.Stack, wit)
 			continue
 		}
-		if (par.Err != nil) != (seq.Err != nil) {
+		if seq.Err != nil && par.Err == nil {
+			// judged after the loop: see errLost below
+			errLost++
+			errLostPlan = pl.Mode
+			wit["parallel"] = hexFloats(par.Out)
+			continue
+		}
+		if seq.Err != nil {
+			errKept++
+		}
+		if seq.Err == nil && par.Err != nil {
 			cs.Violation(sigBase+"|error-mismatch", fmt.Sprintf("sequential run succeeded, parallel run (%s, plan %s) returned error: %v", cfg, pl.Mode, par.Err), wit)
 			continue
 		}
 		judged = true
+		if seq.Err != nil {
+			// both report the error; no outputs to compare
+			cs.Cover("error-path:parallel run reports the error too")
+			if !raceEnabled {
+				if judgeEvents(cs, w, T, sigBase, cfg, pl, nil, par, wit) {
+					multi = true
+				}
+			} else if T > 1 {
+				multi = true
+			}
+			continue
+		}
 		// (1) differential
 		ref, refName := seq.Out, "sequential run"
 		if w.ScheduleOnly && T > 1 {
@@ -291,11 +398,31 @@ func runCase(cs *fw.Case, def entryDef, T, buf int, part string, reps int) {
 		}
 		// (2) exactly-once / ownership
 		if !raceEnabled {
-			if judgeEvents(cs, w, T, sigBase, cfg, pl, seqCount, par, wit) {
+			sc := seqCount
+			if opt.Bad {
+				sc = nil // a failing item ends its chunk: which items run depends on the chunking
+			}
+			if judgeEvents(cs, w, T, sigBase, cfg, pl, sc, par, wit) {
 				multi = true
 			}
 		} else if T > 1 {
 			multi = true
+		}
+	}
+	if errLost > 0 {
+		// The thread pool dependency itself loses a job error now and then: its
+		// job wrapper calls wg.Done() (deferred) before the worker stores the
+		// error with setError, so Wait can return between the two (8 of 12e6 runs
+		// of a program that uses nothing but threadpool@0302c226b91e; more often
+		// under the perturbation plans).  Like a race report inside the dependency
+		// this is counted, not charged.  A library that drops the error (does not
+		// look at the result of Wait) loses it in every repetition: charged when
+		// no repetition of >= 3 returned the error.
+		if errKept == 0 && errLost >= 3 {
+			cs.Violation(sigBase+"|error-lost", fmt.Sprintf("sequential run returned the error `%v'; the parallel run (%s) returned nil in all %d repetitions (last plan %s): the error raised in a job is lost", seq.Err, cfg, errLost, errLostPlan), wit)
+		} else {
+			cs.C.Cover("dependency: job error lost by the thread pool in some repetitions (Done before setError; counted, not charged)", int64(errLost))
+			cs.C.Data(map[string]any{"kind": "sporadic-error-loss", "entry": w.Entry, "variant": w.Variant, "cfg": cfg, "lost": errLost, "kept": errKept})
 		}
 	}
 	if judged && cs.Violations() == 0 && T > 1 && multi {
@@ -508,7 +635,9 @@ func judgeEvents(cs *fw.Case, w *workload, T int, sigBase, cfg string, pl plan, 
 	cs.C.Cover("events-checked", int64(len(par.Events)))
 	parCount := countEvents(par.Events)
 	var lost, double []string
-	if w.ScheduleOnly {
+	if seqCount == nil && !w.ScheduleOnly {
+		// error path: no multiset comparison
+	} else if w.ScheduleOnly {
 		// per site: items contiguous from 0, every item the same number of times
 		bySite := map[string]map[int]int{}
 		for k, v := range parCount {
